@@ -617,7 +617,7 @@ func main() {
 	dir, seed, thorough := cases.Args()
 	r := cq.NewRNG(seed)
 	s := cases.New("C15", dir, "LW.Corr.C15",
-		"14 bands (x repeater x dwell) x histories of up to 30 AddChannel/Disable/Enable calls with arbitrary ints (negative, huge, boundary) and frequencies (duplicates, zero, non-multiples of 100 Hz, 2.4 GHz, 32-bit extremes), each call under recover; after each history every accessor is read (all index lists, every uplink/downlink channel with its flags, GetCFList for 7 versions, index probes, lookups by frequency and frequency+DR); every frequency / DR / CFList the band then produces goes through the real RXParamSetupReq, NewChannelReq, DLChannelReq, PingSlotChannelReq, BeaconFreqReq, CFList and JoinAccept encoders and decoders; traces on one long-lived instance whose alphabet includes the observation calls (every accessor, GetCFList, LinkADRReq planning + apply), each answer compared with the model state at its position: every accessor directly before and after AddChannel / Disable / Enable, random interleavings with full snapshots; for US915/AU915/CN470 histories switching whole 16-channel blocks off (all, alternating, runs of 2-4 adjacent blocks at every position, single block left, sub-bands) whose channel-mask CFList must come back from the join-accept naming exactly the enabled channels. lookups by frequency and by frequency+DR (and the RX1-frequency lookup of US915/AU915/CN470) for the unit-conversion neighbours of every stored channel frequency (f+-1, +-49, +-50, +-99, +-100, +-101, +-1 kHz, rounded to 100 Hz / 1 kHz, bucket ends, f/100, f/1000, f*100, f/2, f*2) after histories adding custom channels at non-multiples of 100 Hz, two inside one 100 Hz bucket, one inside the bucket of a standard channel. Non-trivial = history non-empty (CHist) or any encoder case; distinct = distinct printed case")
+		"14 bands (x repeater x dwell) x histories of up to 30 AddChannel/Disable/Enable calls with arbitrary ints (negative, huge, boundary) and frequencies (duplicates, zero, non-multiples of 100 Hz, 2.4 GHz, 32-bit extremes), each call under recover; after each history every accessor is read (all index lists, every uplink/downlink channel with its flags, GetCFList for 7 versions, index probes, lookups by frequency and frequency+DR); every frequency / DR / CFList the band then produces goes through the real RXParamSetupReq, NewChannelReq, DLChannelReq, PingSlotChannelReq, BeaconFreqReq, CFList and JoinAccept encoders and decoders; traces on one long-lived instance whose alphabet includes the observation calls (every accessor, GetCFList, LinkADRReq planning + apply), each answer compared with the model state at its position: every accessor directly before and after AddChannel / Disable / Enable, random interleavings with full snapshots; for US915/AU915/CN470 histories switching whole 16-channel blocks off (all, alternating, runs of 2-4 adjacent blocks at every position, single block left, sub-bands) whose channel-mask CFList must come back from the join-accept naming exactly the enabled channels. lookups by frequency and by frequency+DR (and the RX1-frequency lookup of US915/AU915/CN470) for the unit-conversion neighbours of every stored channel frequency (f+-1, +-49, +-50, +-99, +-100, +-101, +-1 kHz, rounded to 100 Hz / 1 kHz, bucket ends, f/100, f/1000, f*100, f/2, f*2) after histories adding custom channels at non-multiples of 100 Hz, two inside one 100 Hz bucket, one inside the bucket of a standard channel. custom channels at base+delta (delta in 0,1,2,50,99,100,101,199,200,201) around the band's own grid, the 2.4 GHz 200 Hz grid, the 1.2-1.6777 GHz range and the ends of the 24-bit field and of uint32, each through NewChannelReq, DLChannelReq and the CFList: refused or decoded back to the same values. Non-trivial = history non-empty (CHist) or any encoder case; distinct = distinct printed case")
 	g := &gen{s: s, r: r, seen: map[string]bool{}}
 	cfgs := chanobs.Configs()
 	byName := func(n band.Name) chanobs.Config {
@@ -718,6 +718,51 @@ func main() {
 		}
 	}
 	g.nbr = false
+
+	// ---- stepping residues: custom channels at base + delta for every residue class
+	// the 100 Hz / 200 Hz stepping rules distinguish, in each frequency range (the
+	// band's own grid, the 2.4 GHz 200 Hz grid, the 1.2-1.6777 GHz range where the
+	// NewChannelReq decoder is ambiguous, the ends of the 24-bit field and of uint32).
+	// AddChannel accepts any uint32; every such channel then goes through
+	// NewChannelReq, DLChannelReq and (five at a time) the CFList: refused or
+	// decoded back to the same values ----
+	{
+		deltas := []uint32{0, 1, 2, 50, 99, 100, 101, 199, 200, 201}
+		names := []band.Name{band.EU868, band.ISM2400}
+		if thorough {
+			names = nil
+			for _, n := range chanobs.Names {
+				if chanobs.SupportsExtra(byName(n)) {
+					names = append(names, n)
+				}
+			}
+		}
+		for _, name := range names {
+			cfg := cfgs[byName(name).Index+r.Intn(4)]
+			mn, mx, _ := chanobs.CFListDRRange(cfg)
+			own := chanobs.Uplinks(cfg.New())[0].Freq / 200 * 200
+			ranges := map[string][]uint32{
+				"own-grid":  {own + 200000*uint32(1+r.Intn(20)), own + 200000*uint32(21+r.Intn(20)) + 100},
+				"2.4ghz":    {2400000000, 2422000000 + 200*uint32(r.Intn(1000)), 2483400000},
+				"ambiguous": {1199999800, 1300000000 + 100*uint32(r.Intn(1000000)), 1677721400},
+				"field-end": {3355443000, 4294967000, 4294967295 - 201},
+			}
+			for _, rn := range []string{"own-grid", "2.4ghz", "ambiguous", "field-end"} {
+				var all []chanobs.Op
+				for _, base := range ranges[rn] {
+					for i, d := range deltas {
+						o := chanobs.Add(base+d, mn, mx)
+						all = append(all, o)
+						// five at a time, so that each of them is offered in a CFList
+						if i%5 == 4 {
+							g.history("stepping-cflist-"+rn, cfg, all[len(all)-5:])
+						}
+					}
+				}
+				g.history("stepping-"+rn, cfg, all)
+			}
+		}
+	}
 
 	// ---- observation - call - observation, every accessor x every call -------
 	for _, name := range chanobs.Names {
